@@ -183,6 +183,17 @@ def query(sp, name, args):
         return mat(r)
     if name == "titr":
         return ("skip",)
+    if name == "phq":
+        n, d = (args[1].split("/") + ["1"])[:2]
+        pH = int(n) if d == "1" and len(n) % 2 == 0 else float(int(n)) / float(int(d))
+        f = {"ncpr": sp.get_NCPR, "fcr": sp.get_FCR, "mnc": sp.get_mean_net_charge, "fer": sp.get_fraction_expanding}[args[0]]
+        return num(f(pH))
+    if name == "pisound":
+        pi = sp.get_isoelectric_point()
+        c = sp.SeqObj.charge_at_pH(pi, normalize=True)
+        return ("bool", bool(abs(float(c)) <= 0.02 + 1e-12))
+    if name == "pi":
+        return num(sp.get_isoelectric_point())
     if name == "kappaphos":
         return num(sp.get_kappa_after_phosphorylation())
     if name == "getphos":
